@@ -105,11 +105,11 @@ Qed.
 (** the three forms of a vertical link *)
 Lemma vlink_cases g k i j l : vlink g k (i, j) = Some l ->
   ((k =? 1)%nat || qle (gsurf g i j) (top g k) = true /\ gatm g = 0%nat /\
-     l = mkLink (Cell k i j) Atm0 3 (gsurf g i j - zc g k i j) (gatmconn g) (area g i j)) \/
+     l = mkLink (Cell k i j) Atm0 3 (gsurf g i j - zc g k i j) (gatmconn g) (area g i j) neg1 1) \/
   ((k =? 1)%nat || qle (gsurf g i j) (top g k) = true /\ gatm g = 1%nat /\
-     l = mkLink (Cell k i j) (Cell 0 i j) 3 (gsurf g i j - zc g k i j) (gatmconn g) (area g i j)) \/
+     l = mkLink (Cell k i j) (Cell 0 i j) 3 (gsurf g i j - zc g k i j) (gatmconn g) (area g i j) neg1 1) \/
   ((k =? 1)%nat || qle (gsurf g i j) (top g k) = false /\
-     l = mkLink (Cell k i j) (Cell (k - 1) i j) 3 (top g k - lcen g k) (zc g (k - 1) i j - bot g (k - 1)) (area g i j)).
+     l = mkLink (Cell k i j) (Cell (k - 1) i j) 3 (top g k - lcen g k) (zc g (k - 1) i j - bot g (k - 1)) (area g i j) neg1 1).
 Proof.
   unfold vlink. destruct ((k =? 1)%nat || qle (gsurf g i j) (top g k)) eqn:E.
   - destruct (gatm g) as [|[|n]]; intros H; inversion H; subst; auto.
